@@ -4,6 +4,7 @@ import (
 	"bytes"
 	"errors"
 	"fmt"
+	"io"
 	"log"
 
 	"github.com/jcmturner/gokrb5/v8/crypto"
@@ -88,6 +89,10 @@ func (pac *PACType) Unmarshal(b []byte) (err error) {
 // ProcessPACInfoBuffers processes the PAC Info Buffers.
 // https://msdn.microsoft.com/en-us/library/cc237954.aspx
 func (pac *PACType) ProcessPACInfoBuffers(key types.EncryptionKey, l *log.Logger) error {
+	if l == nil {
+		// No logger is configured (the default of service.Settings): (*log.Logger)(nil).Printf panics.
+		l = log.New(io.Discard, "", 0)
+	}
 	for _, buf := range pac.Buffers {
 		p := make([]byte, buf.CBBufferSize, buf.CBBufferSize)
 		copy(p, pac.Data[int(buf.Offset):int(buf.Offset)+int(buf.CBBufferSize)])
